@@ -95,6 +95,21 @@ class Ctx:
         """A finding whose obligations were already recorded with finding=False."""
         self.findings.append(Finding(self.prop, rule, file, qual, norm_src(construct), why, line, extra))
 
+    def attempt(self, rule, file, qual, what, func, *args, **kw):
+        """Run one sub-check; code the formula/summary engines cannot interpret leaves the obligation undischarged
+        (a violation naming the construct), it does not abort the run."""
+        from .symx import Untranslatable
+        try:
+            return func(*args, **kw)
+        except Untranslatable as ex:
+            self.violation(rule, file, qual, what, "obligation not discharged: the code uses a construct the analysis cannot interpret (%s)" % ex)
+        except AnalysisError as ex:
+            if type(ex).__name__ in ("HasLoop",):
+                self.violation(rule, file, qual, what, "obligation not discharged: %s" % ex)
+            else:
+                raise
+        return None
+
     def count(self, rule, found, minimum):
         """Frozen minimum instance count of a rule: fewer is an ANALYSIS-ERROR."""
         self.min_counts[rule] = (found, minimum)
